@@ -1038,26 +1038,80 @@ pub fn run_c12_pipeline() -> Outcome {
     };
     let companions = ch("c12p.companions", 3);
     let (stack_budget, nthreads, _max_region) = measure(&world.dump, &world);
-    let out = execute(shared, ExecMode { faults: false, companions, use_warm_cache: false, previous_job: 0 }, stack_budget, nthreads);
-    probe("e2.pipeline");
-    let info = json!({"scenario": "process_minidump (real join_all of real walkers) over the gated supplier", "world": world.describe, "companions": companions, "steps": out.steps, "supplier_calls": out.per_key.values().map(|v| v.0).sum::<u32>(), "distinct_modules_asked": out.per_key.len(), "pending": [out.pending.0, out.pending.1]});
-    let result = (|| -> simkit::Check {
-        simkit::ensure!(out.stop == "done", "c12.deadlock", "processing ended with {}: a lookup was lost or deadlocked", out.stop);
-        for (_k, (calls, max_inflight)) in &out.per_key {
-            simkit::ensure!(*max_inflight <= 1, "c12.supplier_concurrent", "two locate_symbols calls for the same module were in flight at once");
-            simkit::ensure!(*calls <= 1, "c12.supplier_asked_twice", "the supplier was asked more than once for the same module");
+    // Two executions of the real pipeline on the same dump and symbols: the reference one on the
+    // all-zero tape (a supplier that never suspends, FIFO polling, no companions) and the one
+    // under a drawn schedule with a suspending supplier.  "Every requester of a module observes
+    // the same outcome" is judged on what the requesters — the per-thread stack walkers — made
+    // of it: the rendered reports of the two executions must be equal.
+    let verbose = simkit::with_ctx(|c| c.verbose);
+    let mut outs: Vec<ExecOut> = Vec::new();
+    let mut digest = 0u64;
+    let mut failed: Option<Violation> = None;
+    for i in 0..2u64 {
+        let sh = shared.clone();
+        let mode = ExecMode { faults: false, companions: if i == 0 { 0 } else { companions }, use_warm_cache: false, previous_job: 0 };
+        let rep = simkit::runner::run_sub_nested("c12p.exec", i, i == 0, verbose, move || execute(sh, mode, stack_budget, nthreads));
+        for (k, v) in &rep.probes {
+            simkit::probe_add(k, *v);
         }
-        let n = out.per_key.len() as u64;
-        simkit::ensure!(
-            out.pending.0 == n && out.pending.1 == n,
-            "c12.pending_stats",
-            "pending counters do not end at requested = processed = number of distinct modules (requested-distinct = {}, processed-distinct = {})",
-            out.pending.0 as i64 - n as i64,
-            out.pending.1 as i64 - n as i64
-        );
+        simkit::ctx::add_sub_time(rep.sim_ns, rep.events);
+        for l in rep.log.iter().take(120) {
+            simkit::log_line(|| format!("[exec {i}] {l}"));
+        }
+        digest = simkit::rng::mix(&[digest, rep.digest]);
+        match rep.value {
+            Ok(o) => outs.push(o),
+            Err(v) => {
+                failed = Some(Violation::new(format!("c12.execution_failed/{}", v.oracle), v.detail));
+                break;
+            }
+        }
+    }
+    probe("e2.pipeline");
+    let info = match outs.last() {
+        Some(out) => json!({"scenario": "process_minidump (real join_all of real walkers) over the gated supplier, compared with the same processing over a never-suspending supplier", "world": world.describe, "companions": companions, "steps": out.steps, "supplier_calls": out.per_key.values().map(|v| v.0).sum::<u32>(), "distinct_modules_asked": out.per_key.len(), "pending": [out.pending.0, out.pending.1]}),
+        None => json!({"scenario": "process_minidump over the gated supplier", "world": world.describe}),
+    };
+    let result = (|| -> simkit::Check {
+        if let Some(v) = failed {
+            return Err(v);
+        }
+        for out in &outs {
+            simkit::ensure!(out.stop == "done", "c12.deadlock", "processing ended with {}: a lookup was lost or deadlocked", out.stop);
+            for (_k, (calls, max_inflight)) in &out.per_key {
+                simkit::ensure!(*max_inflight <= 1, "c12.supplier_concurrent", "two locate_symbols calls for the same module were in flight at once");
+                simkit::ensure!(*calls <= 1, "c12.supplier_asked_twice", "the supplier was asked more than once for the same module");
+            }
+            let n = out.per_key.len() as u64;
+            simkit::ensure!(
+                out.pending.0 == n && out.pending.1 == n,
+                "c12.pending_stats",
+                "pending counters do not end at requested = processed = number of distinct modules (requested-distinct = {}, processed-distinct = {})",
+                out.pending.0 as i64 - n as i64,
+                out.pending.1 as i64 - n as i64
+            );
+        }
+        let (reference, scheduled) = (&outs[0], &outs[1]);
+        for c in scheduled.outputs.iter() {
+            if c != &reference.outputs[0] {
+                let v = mismatch_violation("c12.requesters_disagree", "walkers that asked for a module while its lookup was suspended ended with a different result than with a supplier that answers at once", &shared.modules, &reference.outputs[0], c);
+                // the per-module statistics of two modules sharing a file name are C13's listed
+                // finding and say nothing about what a requester observed
+                if v.oracle == "c13.same_leaf_symbol_stats" {
+                    probe("e2.pipeline_same_leaf_masked");
+                    continue;
+                }
+                return Err(v);
+            }
+        }
         Ok(())
     })();
-    let digest = simkit::with_ctx(|c| c.digest);
+    let out = match outs.last() {
+        Some(o) => o,
+        None => {
+            return Outcome { result, nontrivial: false, key: simkit::rng::mix(&[crate::common::fnv(&world.dump), digest]), info };
+        }
+    };
     Outcome {
         result,
         nontrivial: world.threads.len() >= 2 && out.per_key.len() >= 1 && (companions > 0 || world.threads.len() >= 2),
